@@ -1344,17 +1344,26 @@ impl TensorStore {
         let new_router = SlabRouter::from_bytes(bytes)
             .map_err(|e| SnapshotError::SerializationError(e.to_string()))?;
 
-        // Clear current and copy data from new router
+        // Clear current and copy data from new router. Point lookups consult the Bloom filter
+        // first, so it is rebuilt from the restored keys as well.
         self.router.clear();
+        if let Some(ref filter) = self.bloom_filter {
+            filter.clear();
+        }
         for key in new_router.scan("") {
             if let Ok(value) = new_router.get(&key) {
                 // Best-effort restore - continue even if individual entries fail
-                if let Err(e) = self.router.put(&key, value) {
-                    tracing::warn!(
+                match self.router.put(&key, value) {
+                    Ok(()) => {
+                        if let Some(ref filter) = self.bloom_filter {
+                            filter.add(&key);
+                        }
+                    },
+                    Err(e) => tracing::warn!(
                         key = %key,
                         error = %e,
                         "Failed to restore entry during checkpoint restore"
-                    );
+                    ),
                 }
             }
         }
